@@ -100,13 +100,15 @@ CLAIMS = {
         technique="contract-based deductive verification: set-algebra postconditions on the real diff functions, per-path VCs (z3), "
                   "counter-models replayed on the real code",
         design_ref="DESIGN.md section 3 C17"),
-    'C11': dict(
+    'C11': dict(category='other',
         text="Per-sliver contribution contracts on the real collector methods: after a call every attribute list is the previous list "
              "plus exactly this sliver's contribution (site once, cpu/ram/disk, one entry per component, bandwidth, per-type site of "
              "externally routed services and of mirror services whose port is outside the slice), nothing collected earlier is removed, "
              "two services visited in either order give the same attribute sets; PDP request carries every attribute once in its "
              "category; lifetime arithmetic proved over unbounded integers; accounting counters increase by exactly the element's amount.",
-        note="Prior attribute lists hold 0..2 symbolic entries (those obligations are counted as bounded). The walk over a whole "
+        note="Bounded stand-in, not proof, for the attribute-collection half: prior attribute lists hold 0..2 symbolic entries, "
+             "slivers carry <= 2 components / services (all values symbolic); only the lifetime arithmetic and the accounting "
+             "tallies are discharged for all inputs. The walk over a whole "
              "topology object (_collect_attributes_from_topo) is executed on two slice programs built through the real API (bounded): "
              "attributes equal a direct tally, and a fresh collector gives the same result whatever was collected earlier in the "
              "process. Collection from the serialized model (_collect_attributes_from_asm) is not mechanised.",
